@@ -89,7 +89,11 @@ impl Module for RecBank {
             BankMsg::Burn { amount } => format!("burn:{}", cs(amount)),
             other => format!("{:?}", other),
         };
-        if self.world.module_call("bank", sender.as_str(), payload) {
+        if sender.as_str() == "staking_module" {
+            // unbonding payouts are made by the block update itself, which treats a failing bank as a
+            // broken configuration (it unwraps): never inject a fault there
+            self.world.module_call_rec("bank", sender.as_str(), payload);
+        } else if self.world.module_call("bank", sender.as_str(), payload) {
             bail!("injected bank module failure");
         }
         self.inner.execute(api, storage, router, block, sender, msg)
